@@ -1,7 +1,7 @@
 (* C03 property theorems: statements only, each closed by [exact] (or by evaluating a
    decidable obligation over the table REGENERATED from the source on every run). *)
 From Boltons Require Import Lib.Prelude Lib.C03_Syntax Lib.C03_Conc Model.C03_Model
-     Proofs.C03_Serial Proofs.C03_Covered Proofs.C03_Main Gen.C03_Gen.
+     Proofs.C03_Serial Proofs.C03_Covered Proofs.C03_Main Proofs.C03_Link1 Proofs.C03_Link2 Proofs.C03_Link3 Gen.C03_Gen.
 
 (* (T) obligation over regenerated data: in the CURRENT source, self._lock is a
    threading.RLock and every statement of every C03 method of LRI and LRU that touches the
@@ -94,6 +94,90 @@ Theorem C03_unlocked_readers_refuted :
   table_covered tb_unlocked_readers = false.
 Proof. vm_compute. repeat split; reflexivity. Qed.
 Print Assumptions C03_unlocked_readers_refuted.
+
+(* ---- atomicity with respect to the sequential model of property C02 ------------------------
+   (DEPENDS on C02: Model/C02_Model.v, its pointer-level model and its theorems.)
+   Every public operation of the C03 micro-step model, executed atomically on a state that
+   represents a C02 model state m (C02's invariant Inv and representation relation PRel), returns
+   what C02's list-level model step1 returns and ends in a state that represents step1's state. *)
+Theorem C03_sequential_refines_C02 :
+  forall tb c, 1 <= cf_max c ->
+  forall s m o o1, tr o = Some o1 -> stands_for c s m ->
+    let '(s', r) := run_op tb c s o in
+    let '(m', out) := Boltons.Model.C02_Model.step1 (cfg2 c) m o1 in
+    r = conv_out o out /\ stands_for c s' m'.
+Proof. exact op_link. Qed.
+Print Assumptions C03_sequential_refines_C02.
+
+(* THE statement of C03 against C02's model: for every covered lock table, every configuration
+   with max_size >= 1, all thread programs over the 13 operations C02 models (all but copy and
+   c == c), every schedule: the values returned to each thread are those C02's sequential model
+   returns when the same operations are executed one at a time in SOME order that respects every
+   thread's own order, and the final dict and ring represent that model's final state, which
+   satisfies C02's invariant. *)
+Theorem C03_atomic_wrt_C02 :
+  forall tb, table_covered tb = true ->
+  forall c, 1 <= cf_max c ->
+  forall progs, (forall t, Forall translatable (progs t)) ->
+  forall sh0 m0, stands_for c sh0 m0 ->
+  forall sched,
+    let s := conc_run tb c progs sh0 sched in
+    finished s ->
+    exists order,
+      let '(mS, todoC, doneC) := c02_serial (cfg2 c) order m0 progs in
+      (forall t, t_done (m_thr s t) = doneC t) /\ (forall t, todoC t = []) /\ stands_for c (m_sh s) mS.
+Proof. exact atomic_wrt_c02. Qed.
+Print Assumptions C03_atomic_wrt_C02.
+
+(* "No interleaving ... exceeds max_size" *)
+Theorem C03_never_exceeds_max_size :
+  forall tb, table_covered tb = true ->
+  forall c, 1 <= cf_max c ->
+  forall progs, (forall t, Forall translatable (progs t)) ->
+  forall sh0 m0, stands_for c sh0 m0 ->
+  forall sched,
+    let s := conc_run tb c progs sh0 sched in
+    finished s -> view_len (m_sh s) <= cf_max c.
+Proof. exact never_exceeds_max_size. Qed.
+Print Assumptions C03_never_exceeds_max_size.
+
+(* "... or leaves the cache unusable for later operations" *)
+Theorem C03_usable_afterwards :
+  forall tb, table_covered tb = true ->
+  forall c, 1 <= cf_max c ->
+  forall progs, (forall t, Forall translatable (progs t)) ->
+  forall sh0 m0, stands_for c sh0 m0 ->
+  forall sched,
+    let s := conc_run tb c progs sh0 sched in
+    finished s ->
+    exists mS, stands_for c (m_sh s) mS /\
+      forall o o1, tr o = Some o1 ->
+        let '(s', r) := run_op tb c (m_sh s) o in
+        let '(m', out) := Boltons.Model.C02_Model.step1 (cfg2 c) mS o1 in
+        r = conv_out o out /\ stands_for c s' m'.
+Proof. exact usable_afterwards. Qed.
+Print Assumptions C03_usable_afterwards.
+
+(* the hypotheses are inhabited: a fresh cache stands for C02's empty cache, and a run with a
+   pre-emption inside the ring splice finishes *)
+Definition ex2_progs : nat -> list op :=
+  fun t => match t with
+           | 0 => [SetItem 0 10; GetItem 1; SetItem 2 12]
+           | 1 => [SetItem 1 11; Pop 0 None; Len]
+           | _ => []
+           end.
+Example C03_link_inhabited :
+  stands_for (mkConfig LRU 2 None) shared_init Boltons.Model.C02_Model.empty_cache
+  /\ (forall t, Forall translatable (ex2_progs t))
+  /\ (let s := conc_run gen_table (mkConfig LRU 2 None) ex2_progs shared_init
+                         (repeat 0 9 ++ repeat 1 30 ++ repeat 0 40 ++ repeat 1 60 ++ repeat 0 80 ++ repeat 1 80) in
+       t_todo (m_thr s 0) = [] /\ t_todo (m_thr s 1) = [] /\ t_cur (m_thr s 0) = None /\ t_cur (m_thr s 1) = None
+       /\ t_done (m_thr s 1) = [RNone; RExn KeyError; RNat 2]).
+Proof.
+  split; [apply stands_for_init|]. split.
+  - intros [|[|t]]; simpl; repeat constructor; discriminate.
+  - vm_compute. repeat split; reflexivity.
+Qed.
 
 (* the hypotheses are inhabited by a non-trivial run: LRU(max_size=2) holding 0,1; thread 0
    reads key 0 then inserts key 2, thread 1 deletes key 1 then copies; thread 0 is pre-empted
